@@ -3,7 +3,7 @@
    Models: BinPrim (read_* / read_token / write_token), BinLexer (Lexer cursor, run_lexer, fits),
    BinReader (TokenReader over BufWin: next/refill_next, run_stream). *)
 From JV Require Import Bytes Tables BinPrim BufWin BinLexer BinReader.
-From JV.proofs Require Import BinLexProofs BinRoundProofs BinStreamProofs.
+From JV.proofs Require Import BinLexProofs BinRoundProofs BinStreamProofs BinSkipProofs.
 Open Scope nat_scope.
 
 (* wf_tok (BinRoundProofs): BId x only with is_id x and x < 2^16; string length < 2^16; integers in
@@ -72,6 +72,13 @@ Theorem C08_stream_eq_lexer : forall input sched cap,
   no_fail sched = true -> fits cap input = true -> run_stream cap sched input = run_lexer input.
 Proof. exact stream_eq_lexer. Qed.
 Print Assumptions C08_stream_eq_lexer.
+
+(* what [fits] means: it is implied by a buffer larger than the whole input, and it implies that the
+   buffer holds the largest token the slice lexer reads (max_token) *)
+Theorem C08_fits_whole_input : forall cap input, length input < cap -> fits cap input = true.
+Proof. exact fits_whole. Qed.
+Theorem C08_fits_holds_max_token : forall cap input, fits cap input = true -> max_token input <= cap.
+Proof. intros cap input. exact (fits_max_token _ cap input). Qed.
 
 (* non-vacuity: a well-formed token list; an input with an rgb block and a string that fits a 24-byte buffer
    under a schedule with 1-byte reads, and does not fit a 23-byte one *)
